@@ -17,10 +17,13 @@ THEOREMS = {
     "C17_step_count": "exactly b + n*t steps",
     "C17_record_marks": "a state is recorded after exactly the steps numbered b+t, b+2t, ..., b+n*t and nowhere else",
     "C17_collection_complete": "n records, never refused; an initially empty holder of capacity n ends complete",
-    "C17_key_fun": "the generator key is (seed, [chain_index]) for 0 <= chain_index < n_chains: a function of the triple only (independent of b, t, n, holder), not depending on n_chains beyond the range check",
+    "C17_key_in_trace": "whatever b, t, n and the holder are, a successful MCMC run is Reset, SetRng(rng_key seed n_chains chain_index), then only steps and records",
+    "C17_key_fun": "rng_key = (entropy seed, spawn_key [chain_index]) for 0 <= chain_index < n_chains: a function of the triple, n_chains only bounds the index",
     "C17_key_injective": "equal keys for chain indices within range (same or different seeds / n_chains) force equal seed and chain index",
     "C17_streams_distinct_partial": "different chain indices get different SeedSequence keys; PARTIAL: that different keys yield non-overlapping PCG64 streams is numpy's guarantee, checked only on first draws by the harness",
     "C17_vi_once": "VI branch: Reset, SetRng(seed,[]), one SampleVI n, then n Records; holder complete",
+    "C17_not_a_model_refused": "an object that is neither MCMCModel nor VIModel is refused",
+    "C17_none_refused": "a None among n_chains, chain_index, n_burnin, thin is refused for MCMC models",
     "C17_negative_index_aliases": "observation: chain_index = -1 is accepted and aliases chain n_chains-1 (python negative indexing); outside the property's quantifier",
 }
 ASSUMPTIONS = [
